@@ -18,8 +18,20 @@ func (o *OperandPegImpl) Require66h() bool {
 	is16bitMode := o.bitMode == cpu.MODE_16BIT
 	is32bitMode := o.bitMode == cpu.MODE_32BIT // 16ビットでなければ32ビットと仮定
 
+	// An immediate takes its width from the other operand; it decides the
+	// prefix only when it is the sole operand (e.g. PUSH imm).
+	hasSizedOperand := false
+	for _, parsed := range o.parsedOperands {
+		if parsed != nil && (isRegisterType(parsed.Type) || parsed.Type == CodeM8 || parsed.Type == CodeM16 || parsed.Type == CodeM32) {
+			hasSizedOperand = true
+		}
+	}
+
 	for _, parsed := range o.parsedOperands {
 		if parsed == nil {
+			continue
+		}
+		if hasSizedOperand && (parsed.Type == CodeIMM || parsed.Type == CodeIMM8 || parsed.Type == CodeIMM16 || parsed.Type == CodeIMM32 || parsed.Type == CodeIMM64) {
 			continue
 		}
 
@@ -28,11 +40,11 @@ func (o *OperandPegImpl) Require66h() bool {
 		baseType := parsed.Type
 
 		switch {
-		case isR8Type(baseType) || (baseType == CodeM && parsed.DataType == ast.Byte):
+		case isR8Type(baseType) || baseType == CodeM8 || (baseType == CodeM && parsed.DataType == ast.Byte):
 			inherentSize = 8
-		case isR16Type(baseType) || (baseType == CodeM && parsed.DataType == ast.Word):
+		case isR16Type(baseType) || baseType == CodeM16 || (baseType == CodeM && parsed.DataType == ast.Word):
 			inherentSize = 16
-		case isR32Type(baseType) || (baseType == CodeM && parsed.DataType == ast.Dword):
+		case isR32Type(baseType) || baseType == CodeM32 || (baseType == CodeM && parsed.DataType == ast.Dword):
 			inherentSize = 32
 		case isCREGType(baseType): // Check if it's a control register
 			inherentSize = 32 // Control registers (like CR0) are 32-bit in IA-32e
